@@ -206,8 +206,8 @@ def _chunk(arg: tuple) -> tuple[int, list]:
     return steps, out
 
 
-def run(rep: common.Reporter, tier: str, kinds: Optional[set] = None) -> dict:
-    depth = 2 if tier == 'quick' else 3
+def run(rep: common.Reporter, tier: str, kinds: Optional[set] = None, depth: Optional[int] = None) -> dict:
+    depth = depth or (2 if tier == 'quick' else 3)
     inits = '{' + ','.join(f'"{i}"' for i in INITS) + '}'
     behs: list[str] = []
     r = tlc.run('NumExpr', dict(Depth=str(depth), Inits=inits, Operands=OPERANDS), invariants=['ValueOK'],
@@ -236,7 +236,7 @@ def run(rep: common.Reporter, tier: str, kinds: Optional[set] = None) -> dict:
 
 
 def refusal_part(rep: common.Reporter, tier: str) -> dict:
-    return run(rep, 'quick', {'refusal'})
+    return run(rep, 'quick', {'refusal'}, depth=1)
 
 
 def main(prop: str, tier: str) -> int:
